@@ -136,6 +136,8 @@ pub enum Case {
     Prefix { doc: MVal, cut: usize },
     /// a legacy text row where a binary row is expected
     Text { doc: MVal, style: TextStyle },
+    /// a legacy text row that was itself damaged: any byte string, so only "value or error, no panic" is required
+    TextFault { doc: MVal, style: TextStyle, faults: Vec<Fault> },
     /// any byte string at all
     Raw { bytes: Vec<u8>, origin: String },
 }
@@ -392,6 +394,22 @@ fn fault_site(f: &Fault) -> usize {
         ByteOp::Truncate(k) => *k,
         ByteOp::Zero(a, _) => *a,
         ByteOp::Flip(o, _) | ByteOp::Set(o, _) | ByteOp::Insert(o, _) | ByteOp::Delete(o, _) | ByteOp::Splice(o, _) => *o,
+    }
+}
+
+const TEXT_POKES: &[&[u8]] = &[
+    b"\\", b"\\u", b"\\u{", b"\\u12", b"\\ud800", b"\\udc00", b"\\ud800\\u", b"\"", b"{", b"}", b"[", b"]", b",", b":", b"-", b".", b"e", b"E+", b"0",
+    b"9999999999999999999999", b"\\x0C", b"\\n", b" ", b"\n", b"\x00", b"\xff", b"\xc3", b"tru", b"nul", b"1e999", b"-0",
+];
+
+fn gen_text_fault(r: &mut Rng, n: usize) -> Fault {
+    let n = n.max(1);
+    match r.below(6) {
+        0 => Fault::new("text_truncate", ByteOp::Truncate(r.idx(n))),
+        1 => Fault::new("text_flip", ByteOp::Flip(r.idx(n), r.below(8) as u8)),
+        2 => Fault::new("text_delete", ByteOp::Delete(r.idx(n), r.urange(1, 3))),
+        3 => Fault::new("text_set", ByteOp::Set(r.idx(n), r.pick(TEXT_POKES).to_vec())),
+        _ => Fault::new("text_insert", ByteOp::Insert(r.idx(n + 1), r.pick(TEXT_POKES).to_vec())),
     }
 }
 
@@ -709,7 +727,15 @@ impl Scenario for Corrupt {
             return Case::Sweep { doc: gen::gen_scalar(&mut r, &cfg) };
         }
         match r.below(100) {
-            0..=69 => {
+            0..=9 => {
+                let doc = gen_text_doc(&mut r);
+                let style = gen::gen_text_style(&mut r);
+                let n = mval::to_text(&doc, &style).len();
+                let nf = *r.pick(&[1usize, 1, 2, 3]);
+                let faults = (0..nf).map(|_| gen_text_fault(&mut r, n)).collect();
+                Case::TextFault { doc, style, faults }
+            }
+            10..=69 => {
                 let cfg = doc_cfg(&mut r);
                 let doc = gen::gen_doc(&mut r, &cfg, 80);
                 let other = mval::encode(&gen::gen_doc(&mut r, &cfg, 80));
@@ -782,6 +808,29 @@ impl Scenario for Corrupt {
                 self.exec_text(doc, style, &mut cx);
                 cx.stats.sample(8, || json!({"kind": "text_row", "text": truncate_str(&mval::to_text(doc, style), 120)}));
             }
+            Case::TextFault { doc, style, faults } => {
+                cx.stats.inc("runs/text_fault");
+                let pristine = mval::to_text(doc, style).into_bytes();
+                let mut b = pristine.clone();
+                let mut fired: Vec<&str> = vec![];
+                for f in faults {
+                    let before = b.clone();
+                    f.apply(&mut b);
+                    if b != before {
+                        fired.push(f.kind.as_str());
+                    }
+                }
+                for k in &fired {
+                    cx.stats.inc2("fault", k);
+                }
+                cx.digest.bytes(&b);
+                if b != pristine && cx.stats.distinct.len() < 2_000_000 {
+                    cx.stats.distinct.insert(fnv_of(&b));
+                }
+                let (d, st, fs) = (doc.clone(), *style, faults.clone());
+                cx.check(&b, Clause::Any, &fired, move || Case::TextFault { doc: d.clone(), style: st, faults: fs.clone() });
+                cx.stats.sample(12, || json!({"kind": "text_fault", "stored": String::from_utf8_lossy(&b).chars().take(100).collect::<String>()}));
+            }
             Case::Raw { bytes, origin } => {
                 cx.stats.inc("runs/raw");
                 cx.stats.inc2("fault", origin);
@@ -842,6 +891,22 @@ impl Scenario for Corrupt {
                 }
                 out
             }
+            Case::TextFault { doc, style, faults } => {
+                let mut out = vec![];
+                for i in 0..faults.len() {
+                    if faults.len() > 1 {
+                        let mut f = faults.clone();
+                        f.remove(i);
+                        out.push(Case::TextFault { doc: doc.clone(), style: *style, faults: f });
+                    }
+                }
+                let mut b = mval::to_text(doc, style).into_bytes();
+                for f in faults {
+                    f.apply(&mut b);
+                }
+                out.push(Case::Raw { bytes: b, origin: "minimised".into() });
+                out
+            }
             Case::Raw { bytes, .. } => shrink::shrink_bytes(bytes).into_iter().map(|b| Case::Raw { bytes: b, origin: "minimised".into() }).collect(),
         }
     }
@@ -864,6 +929,14 @@ impl Scenario for Corrupt {
                        "stored_hex": mval::hex(&b[..(*cut).min(b.len())])})
             }
             Case::Text { doc, style } => json!({"mode": "text_row", "doc": mval::to_replay(doc), "style": style_to_json(style), "text": mval::to_text(doc, style)}),
+            Case::TextFault { doc, style, faults } => {
+                let mut b = mval::to_text(doc, style).into_bytes();
+                for f in faults {
+                    f.apply(&mut b);
+                }
+                json!({"mode": "text_fault", "doc": mval::to_replay(doc), "style": style_to_json(style), "text": mval::to_text(doc, style),
+                       "faults": faults.iter().map(|f| f.to_json()).collect::<Vec<_>>(), "stored_hex": mval::hex(&b), "stored_lossy": String::from_utf8_lossy(&b)})
+            }
             Case::Raw { bytes, origin } => json!({"mode": "raw", "origin": origin, "stored_hex": mval::hex(bytes)}),
         }
     }
@@ -878,6 +951,10 @@ impl Scenario for Corrupt {
             }
             "prefix" => Ok(Case::Prefix { doc: doc()?, cut: j["cut"].as_u64().ok_or("cut")? as usize }),
             "text_row" => Ok(Case::Text { doc: doc()?, style: style_from_json(&j["style"]) }),
+            "text_fault" => {
+                let faults = j["faults"].as_array().ok_or("faults")?.iter().map(Fault::from_json).collect::<Result<Vec<_>, _>>()?;
+                Ok(Case::TextFault { doc: doc()?, style: style_from_json(&j["style"]), faults })
+            }
             "raw" => Ok(Case::Raw { bytes: mval::unhex(j["stored_hex"].as_str().ok_or("stored_hex")?)?, origin: j["origin"].as_str().unwrap_or("raw").to_string() }),
             m => Err(format!("unknown corrupt case mode {m:?}")),
         }
@@ -889,6 +966,7 @@ impl Scenario for Corrupt {
             Case::Seq { doc, faults } => json!({"faults": faults.len(), "bytes": mval::encode(doc).len()}),
             Case::Prefix { doc, .. } => json!({"doc_nodes": doc.node_count(), "bytes": mval::encode(doc).len()}),
             Case::Text { doc, style } => json!({"doc_nodes": doc.node_count(), "text_bytes": mval::to_text(doc, style).len()}),
+            Case::TextFault { doc, style, faults } => json!({"faults": faults.len(), "text_bytes": mval::to_text(doc, style).len()}),
             Case::Raw { bytes, .. } => json!({"bytes": bytes.len()}),
         }
     }
@@ -897,7 +975,7 @@ impl Scenario for Corrupt {
         "Cases: (a) exhaustive single-fault sweeps over stored documents (every proper prefix, every bit flip, byte substitutions, \
          1- and 4-byte inserts, 1..4-byte deletes at every offset, every header/entry/number/text field x the listed replacement values, \
          zero-filled windows); (b) seeded sequences of 1-4 faults with a per-run random subset of fault kinds enabled, later faults biased \
-         towards the site of the previous one; (c) legacy JSON text rows rendered from generated trees; (d) random bytes and header/entry word soup; \
+         towards the site of the previous one; (c) legacy JSON text rows rendered from generated trees, and such rows damaged by 1-3 byte faults (truncation, bit flip, deletion, inserted escape / bracket / number fragments); (d) random bytes and header/entry word soup; \
          (e) seeded single truncations. A case is non-trivial when the stored bytes differ from the pristine encoding; distinct = distinct stored byte \
          strings by 64-bit FNV-1a (set capped at 2M per worker)."
             .into()
